@@ -65,7 +65,27 @@ def run(ctx):
         rest = body[pos:]
         if rnd.random() < 0.6:
             rest = rest + [rnd.choice([("create", vp, "Blater"), ("remove", vp), ("chown", vp, 1000, 1001)])]
-        new_ops = [ops[0]] + pre + [("forcebackup", vp), ("dump",)] + rest + [("dump",), ("rollback",)]
+        # the name ForceBackup is given: mostly p itself, sometimes another spelling of it
+        # (unclean, or through a symlink to its parent directory)
+        fp = vp
+        r = rnd.random()
+        if r < 0.15 and vp != b"/":
+            fp = vp.replace(b"/", b"//", 1)
+        elif r < 0.3 and vp != b"/":
+            head, tail = vp.rsplit(b"/", 1)
+            fp = head + rnd.choice([b"/./", b"/zz/../"]) + tail
+        elif r < 0.5:
+            par = wp.rsplit(b"/", 1)[0] or b"/"
+            via = []
+            for x in inits:
+                if x[0] != "L" or not x[1].startswith(pfx or b"/") or pg.within(cfg["q"], x[1]):
+                    continue
+                tgt = x[5] if x[5].startswith(b"/") else pg.gojoin(pg.godir(x[1]), x[5])
+                if pg.goclean(tgt) == par and not pg.within(x[1], wp):
+                    via.append(x[1])
+            if via:
+                fp = bfsprops.view_of_world(cfg, rnd.choice(via)) + b"/" + wp.rsplit(b"/", 1)[1]
+        new_ops = [ops[0]] + pre + [("forcebackup", fp), ("dump",)] + rest + [("dump",), ("rollback",)]
         cases.append(t2.Case("c17-%d" % i, cfg, inits, new_ops, meta={"force_index": 1 + len(pre), "wp": wp}))
     r = worldrun.run_stream("C17", "forcebackup", cases, model_ok, level=1, oracle=oracle,
                             nontrivial=lambda c, a: any(o[0] == "forcebackup" and a["R"].get(i, ("",))[0] == "ok" for i, o in enumerate(c.ops)),
